@@ -60,4 +60,9 @@ def run (cfg : Cfg) (s : Store) (t0 : Nat) : List Op → Store × List Out
     let (s'', os) := run cfg s' (t0 + 1) ops
     (s'', o :: os)
 
+/-- over a backing store: a write the backing store rejects fails and changes nothing -/
+def stepBS (cfg : Cfg) (reject : Bool) (s : Store) (now : Nat) (op : Op) : Store × Out :=
+  if reject && op.isWrite && (step cfg s now op).2.isWrite then (s, .err { ctor := .backing, res := none })
+  else step cfg s now op
+
 end Cosi.Spec
